@@ -245,6 +245,7 @@ class Pass:
                 rec = dict(e)
                 if restored:
                     rec["verdict"] = "restored"
+                    rec["form"] = "maskInf" if last["how"] == "setitem" else "diagInfZero"
                 elif e["kind"] == "arg" and self.documented:
                     rec["verdict"] = "documented"
                 else:
@@ -350,6 +351,12 @@ def main():
             eds.append(f'⟨.{r["kind"]}, "{r["name"]}", {ok}⟩')
         ents.append(f'  ("{mod}:{cls}.{func}", [{", ".join(eds)}])')
     lines.append("def effects : List (String × List Edit) := [\n" + ",\n".join(ents) + "]\n")
+    # restored variables and the literal form the restore was recognised in (the forms are
+    # proved to be identities on the array content in Properties/C06.lean)
+    rest = sorted({(f'{r["module"]}:{r["cls"]}.{r["func"]}:{r["var"]}', r["form"])
+                   for r in table if r["verdict"] == "restored"})
+    lines.append("def restores : List (String × Restore) := [\n" + ",\n".join(
+        f'  ("{k}", .{f})' for k, f in rest) + "]\n")
     lines.append("end Pyunicorn.Generated.StructC06")
     txt = "\n".join(lines) + "\n"
     if not os.path.exists(out_path) or open(out_path).read() != txt:
